@@ -178,6 +178,13 @@ func outputSpellingSizes(c *core.Ctx, sc *SeqCase, o V5Opts) (sizes [][2]int, wh
 	return sizes, ""
 }
 
+// per worker: cases that expected copy-accounting events and saw none, and the events seen at all
+var (
+	c12Pending    []map[string]any
+	c12PendingN   int
+	c12EventsSeen int
+)
+
 func chooseLimit(c *core.Ctx, lv limitVerdict) int64 {
 	switch n := c.R.Intn(10); {
 	case n == 0:
@@ -278,8 +285,18 @@ func init() {
 					wantEvents++
 				}
 			}
+			c12EventsSeen += len(ev)
 			if len(ev) != wantEvents {
 				d["expected_events"] = wantEvents
+				if len(ev) == 0 {
+					// no event at all: either this copy was not accounted or the hook call site is gone;
+					// decided at the end of the worker (a hook that never fired anywhere is no verdict)
+					if len(c12Pending) < 5 {
+						c12Pending = append(c12Pending, d)
+					}
+					c12PendingN++
+					return
+				}
 				c.Violation("copy-not-accounted", d)
 				return
 			}
@@ -318,7 +335,19 @@ func init() {
 			"non-trivial = sequence with at least one accounted copy; distinct = distinct (document, patch, options).",
 		Assumptions: []string{"refenc implements the encoder's compact spelling", "a copy that is also inapplicable for another reason decides nothing (stated domain)"},
 		Setup:       setPoolMode,
-		Finish:      poolFinish,
+		Finish: func(c *core.Ctx) {
+			poolFinish(c)
+			if c12PendingN > 0 {
+				if c12EventsSeen == 0 {
+					c.Inconclusive("the CopyAccounted hook never fired in this worker although copies were executed (hook call site missing?)")
+				} else {
+					for _, d := range c12Pending {
+						d["cases_without_any_event"] = c12PendingN
+						c.Violation("copy-not-accounted", d)
+					}
+				}
+			}
+		},
 		Floors: func(t core.Tier, m *core.Merged) []string {
 			out := poolFloor(m)
 			if m.Counts["h2.copy_events"] < 1000 {
